@@ -7,7 +7,7 @@ history correspondence (Tie B): the same op lines run on the Lean driver and on 
 from vlib import histcheck
 
 MODULE = "TriompheModel.Props.C06"
-EXTRA = []
+EXTRA = ["TriompheModel.Props.Monitor"]
 TAGS = ['C06']
 WEIGHTS = {'create': 30, 'iter': 22, 'conv': 8, 'drop': 10, 'clone': 6}
 
